@@ -1,10 +1,119 @@
-"""Counterexample search for a failed obligation (best effort; DESIGN §3.6)."""
+"""Counterexample search for a failed obligation (best effort; DESIGN §3.6).
+
+Verus gives no model.  For a failed obligation the search drives the *real* crates of /repo (replay crate, dev profile:
+overflow checks and debug assertions on) with structured, edge-biased inputs derived from the obligation, and keeps
+the first input on which the real code misbehaves in the way the obligation forbids.  A found input is recorded in
+the replay file and can be re-executed with `./check <ID> --replay <file>`.
+"""
+import os
+import random
+import subprocess
+
+ROOT = os.path.dirname(os.path.dirname(os.path.abspath(__file__)))
+WORK = os.path.join(ROOT, '.work')
+BIN = os.path.join(WORK, 'replay-target', 'debug', 'rngs-replay')
+
+
+def build_replay():
+    env = dict(os.environ, CARGO_TARGET_DIR=os.path.join(WORK, 'replay-target'), CARGO_NET_OFFLINE='true')
+    env.pop('RUSTFLAGS', None)
+    lock = os.path.join(ROOT, 'replay', 'Cargo.lock')
+    r = subprocess.run(['cargo', 'build', '--offline', '--quiet'], cwd=os.path.join(ROOT, 'replay'), env=env,
+                       stdout=subprocess.PIPE, stderr=subprocess.PIPE, text=True)
+    if r.returncode != 0:
+        raise RuntimeError('replay crate does not build against the current /repo:\n' + r.stderr[-2000:])
+
+
+def run_replay(args, timeout=10):
+    try:
+        r = subprocess.run([BIN] + [str(a) for a in args], stdout=subprocess.PIPE, stderr=subprocess.PIPE, text=True, timeout=timeout)
+    except subprocess.TimeoutExpired:
+        # e.g. a JitterRng output call legitimately does not return while its timer stays stuck
+        return 'RESULT timeout'
+    out = [l for l in r.stdout.splitlines() if l.startswith('RESULT')]
+    return out[-1] if out else 'RESULT none ' + r.stderr[-300:]
+
+
+# ---- jitter: families of scripted timers -----------------------------------------------------------------------
+
+def jitter_scripts(seed):
+    """(call, rounds, base, deltas) candidates.  Reading k of the scripted timer is base + sum(deltas[0..k)), the delta
+    list repeating cyclically.  One probe / measurement consumes several readings, so per-probe deltas are sums."""
+    rnd = random.Random(seed)
+    big = [1 << 30, 1 << 31, (1 << 31) - 1, (1 << 31) + 1, 3 << 29, (1 << 32) - 1, 1 << 32, (1 << 32) + 1, 1 << 33, (1 << 63), (1 << 64) - 1]
+    out = []
+    for d in big:
+        out.append(('next_u64', 1, d, [d]))
+        out.append(('next_u64', 1, 1000, [5, 1, 1, d]))
+    # probe deltas alternating between two large values of opposite sign (as i32)
+    for a, b in [(2147483640, 2147483650), (2147483000, 2147484000), (100, 4294967000), (4294967290, 10)]:
+        out.append(('test_timer', 0, 1000, [5, 1, 1, a, 5, 1, 1, b]))
+        out.append(('next_u64', 2, 1000, [5, 1, 1, a, 5, 1, 1, b]))
+    # small alternating probe deltas: mean absolute change around the table / log2 boundaries
+    for lo in range(1, 40):
+        for step in (1, 2, 3):
+            out.append(('set_rounds_test_timer', 0, 1000, [5, 1, 1, lo, 5, 1, 1, lo + step]))
+    for _ in range(40):
+        n = rnd.choice([2, 3, 4, 8])
+        out.append((rnd.choice(['next_u64', 'test_timer', 'set_rounds_test_timer']), rnd.choice([0, 1, 3]), rnd.getrandbits(rnd.choice([8, 32, 64])) | 1,
+                    [rnd.choice([1, 2, 7, 100, rnd.getrandbits(rnd.choice([4, 31, 32, 33, 64])) | 1]) for _ in range(n)]))
+    return out
+
+
+def jitter_bad(pid, ob, call, res):
+    """Does the observed behaviour of the real code violate what the failed obligation (of property pid) demands?"""
+    if 'RESULT panic' in res:
+        # the only documented panic is set_rounds(0) called by the user; a panic inside an output call or test_timer is a C14 matter,
+        # `set_rounds(test_timer()?)` tripping the assertion is a C13 matter
+        if pid == 'C13':
+            return 'rounds > 0' in res
+        return 'rounds > 0' not in res or call == 'set_rounds_test_timer'
+    if pid == 'C13' and call in ('test_timer', 'set_rounds_test_timer'):
+        return 'Ok(0)' in res
+    return False
 
 
 def search(pid, ob, seed):
+    unit = (ob.id.split('.')[0] if '.' in ob.id.split('#')[0].split('::')[0] else None)
+    in_jitter = ob.id.startswith('jitter.') or 'JitterRng' in ob.fn or 'EcState' in ob.fn
+    if in_jitter and 'discards_pending_half' in ob.id:
+        build_replay()
+        import re
+        for n in (1, 2, 3, 4, 5, 8):
+            call = 'seq:next_u32+fill:%d' % n
+            res = run_replay(['jitter', call, 2, 1000, '3,7,11,5,13'])
+            m = re.search(r'\[fill:%d -> \S+ reads\+(\d+)\]' % n, res)
+            if m and int(m.group(1)) == 0:
+                return dict(kind='jitter_timer_script', call=call, rounds=2, base=1000, deltas=[3, 7, 11, 5, 13], observed=res, expect='fill_reads_timer',
+                            explanation='history next_u32(); fill_bytes(%d): the fill_bytes call reads the timer 0 times, i.e. it hands out the pending high half instead of starting a fresh collection' % n)
+        return None
+    if in_jitter:
+        build_replay()
+        for call, rounds, base, deltas in jitter_scripts(seed):
+            if pid == 'C13' and call == 'next_u64':
+                continue
+            res = run_replay(['jitter', call, rounds, base, ','.join(str(d) for d in deltas)])
+            if jitter_bad(pid, ob, call, res):
+                return dict(kind='jitter_timer_script', call=call, rounds=rounds, base=base, deltas=deltas, observed=res,
+                            explanation='scripted timer: reading k returns base + sum of the first k deltas (cyclic); real rand_jitter code, dev profile')
     return None
 
 
 def replay(rec):
-    print(rec.get('failing_input'))
+    ce = rec['failing_input']
+    if ce['kind'] == 'jitter_timer_script':
+        build_replay()
+        res = run_replay(['jitter', ce['call'], ce['rounds'], ce['base'], ','.join(str(d) for d in ce['deltas'])])
+        print('replaying on the real code: call=%s rounds=%s base=%s deltas=%s' % (ce['call'], ce['rounds'], ce['base'], ce['deltas']))
+        print('recorded : ' + ce['observed'])
+        print('observed : ' + res)
+        if ce.get('expect') == 'fill_reads_timer':
+            import re
+            m = re.search(r'\[fill:\d+ -> \S+ reads\+(\d+)\]', res)
+            bad = bool(m) and int(m.group(1)) == 0
+        else:
+            bad = jitter_bad(rec['property'], None, ce['call'], res)
+        print('the violation %s' % ('REPRODUCES' if bad else 'does not reproduce on the current tree'))
+        return 1 if bad else 0
+    print(ce)
     return 1
